@@ -130,7 +130,9 @@ func (c *SubscriptionManager) RemoveSubscription(data model.SubscriptionManageme
 	for _, item := range c.subscriptionEntries {
 		itemAddress := item.ClientFeature.Address()
 
-		if !reflect.DeepEqual(itemAddress.Device, clientAddress.Device) ||
+		// a device can only remove its own subscriptions, whatever device the client address names
+		if item.ClientFeature.Device().Ski() != remoteDevice.Ski() ||
+			!reflect.DeepEqual(itemAddress.Device, clientAddress.Device) ||
 			!reflect.DeepEqual(itemAddress.Entity, clientAddress.Entity) ||
 			!reflect.DeepEqual(itemAddress.Feature, clientAddress.Feature) ||
 			!reflect.DeepEqual(item.ServerFeature, serverFeature) {
